@@ -195,6 +195,14 @@ def main(tier, seed):
             stats['executable'] += 1
             if rng.random() < 0.5:
                 edit_before_export(rng, sc, stats)
+            if rng.random() < 0.2:
+                # code given through the API with a common left margin (a triple-quoted string in the caller's source): what the
+                # chart does with it - run it or refuse it - the re-imported chart must do too
+                owners = [st for st in sc._states.values() if getattr(st, 'on_entry', None)]
+                for st in rng.sample(owners, min(2, len(owners))):
+                    body = st.on_entry if '\n' in st.on_entry else st.on_entry + '\ny = y + 0'
+                    st.on_entry = '    ' + body.replace('\n', '\n    ')
+                stats['charts_with_indented_code'] = stats.get('charts_with_indented_code', 0) + 1
             one_chart(sc, True, str(i))
         else:
             sc = iofam.weird_chart(rng)
